@@ -545,10 +545,15 @@ def c02_check_tree(case, impl):
     (only when no vertex pair repeats, otherwise None: networkx keeps one attribute set per pair)"""
     tag = case["tag"]
     if tag == NETWORK:
+        def edges_of_shape(sh):
+            if sh and sh[0] == 0:
+                return [list(e) for e in sh[1]]
+            if sh and sh[0] == 1:
+                return [[sh[1], sh[2]]]           # a bare edge (u, v): one row (the fast generator re-packs it)
+            return []
         pairs = []
         for j, sh in impl["results"]:
-            if sh and sh[0] == 0:
-                pairs += [norm_pair(e) for e in sh[1]]
+            pairs += [norm_pair(e) for e in edges_of_shape(sh)]
         if len(set(pairs)) != len(pairs):
             return None
         attr = {(u, v): (nm, i) for u, v, nm, i in impl["net_edges"]}
@@ -557,7 +562,7 @@ def c02_check_tree(case, impl):
             return clamp([0, case["names"], results_tree(impl), ce, [0] * len(ce), [0] * len(ce)])
         ce, cn, ci = [], [], []
         for j, sh in impl["results"]:
-            for e in sh[1]:
+            for e in edges_of_shape(sh):
                 nm, i = attr[norm_pair(e)]
                 ce.append(list(e))
                 cn.append(nm)
@@ -592,7 +597,7 @@ def config_total(case):
     if len(codes) < T or len(names) < T or len(sizes) < T:
         return False
     for k in range(T):
-        if codes[k] in (BARE, PATH2L):
+        if codes[k] == PATH2L:
             return False
         if n_edges(codes[k], sizes[k]) is None:
             return False
@@ -724,9 +729,9 @@ def pick_code(rng, tag, s):
         opts += [DIAMOND, DIAMOND]
     if s >= 3:
         opts.append(PATH2)
+    if s >= 2:
+        opts += [BARE, BARE]          # a single bare edge (u, v): custom motifs and (since the fix) the fast generator
     if tag == MOTIFS:
-        if s >= 2:
-            opts += [BARE, BARE]
         if s >= 3:
             opts += [PATH2L]
     if s >= 1:
